@@ -141,7 +141,7 @@ impl Cfg {
         c
     }
     pub fn random(r: &mut Rng) -> Cfg {
-        let comp = r.pick(COMPS).to_string();
+        let comp = if r.chance(3, 10) { "none".to_string() } else { r.pick(COMPS).to_string() };
         let level = level_for(&comp, r);
         let batch = if r.chance(2, 5) {
             None
@@ -279,7 +279,7 @@ fn dummy_bytes(d: &Dummy) -> Vec<u8> {
 
 pub async fn run_case(client: &Client, raw: &RawPeer, seed: u64, i: u64, cfg: &Cfg, out: &mut String) {
     let mut r = Rng::new(seed.wrapping_mul(31337).wrapping_add(i) ^ 0x03);
-    let topic = format!("/c03ns{}/t{}", seed % 100_000, i);
+    let topic = format!("/c03ns{}/t{:03}", seed % 100_000, i);
     let _ = writeln!(out, "case c03 {} {}", seed, i);
     let _ = writeln!(out, "{}", cfg.text());
     let res = match cfg.codec.as_str() {
